@@ -98,7 +98,8 @@ impl<const N: u8> Message for Topic<N> {
 impl<const N: u8> Clone for Topic<N> {
     fn clone(&self) -> Self {
         let o = exec::fresh_oid();
-        e(&[ev::PUBCOPY as usize, N as usize, o, self.v as usize]);
+        let (b, h) = exec::current().0.borrow().broker_target.unwrap_or((usize::MAX >> 8, usize::MAX >> 8));
+        e(&[ev::PUBCOPY as usize, N as usize, o, self.v as usize, self.o.unwrap_or(usize::MAX >> 8), b, h]);
         Topic { v: self.v, o: Some(o) }
     }
 }
@@ -251,21 +252,21 @@ impl<const TY: u8> SA<TY>
                 }},
                 Act::Subscribe(topic) => {
                     let o = exec::fresh_oid();
-                    e(&[ev::SUBSCRIBE as usize, a, *topic as usize, o]);
+                    e(&[ev::TOPIC_OP as usize, o, 1000 + a, 1, *topic as usize, a]);
                     let r = match topic {
                         1 => ctx.subscribe::<Topic<1>>().await,
                         _ => ctx.subscribe::<Topic<2>>().await,
                     };
-                    crate::client::ret_unit(o, r);
+                    e(&[ev::TOPIC_RET as usize, o, r.is_ok() as usize]);
                 }
                 Act::Publish(topic, v) => {
                     let o = exec::fresh_oid();
-                    e(&[ev::OP as usize, o, 1000 + a, 0, ev::K_PUBLISH as usize, *topic as usize, *v as usize]);
+                    e(&[ev::TOPIC_OP as usize, o, 1000 + a, 0, *topic as usize, *v as usize]);
                     let r = match topic {
-                        1 => ctx.publish(Topic::<1> { v: *v, o: None }).await,
-                        _ => ctx.publish(Topic::<2> { v: *v, o: None }).await,
+                        1 => ctx.publish(Topic::<1> { v: *v, o: Some(o) }).await,
+                        _ => ctx.publish(Topic::<2> { v: *v, o: Some(o) }).await,
                     };
-                    crate::client::ret_unit(o, r);
+                    e(&[ev::TOPIC_RET as usize, o, r.is_ok() as usize]);
                 }
                 Act::Panic => panic!("scripted panic"),
                 Act::Fail => return Err(()),
